@@ -550,7 +550,7 @@ theorem run_out_cc {s : State} (h : WF s) (r : ReadOp) :
   | serializeFlat => simp only [State.run, State.serializeFlat, visible_cc, contextsCall_isDataset, contextsCall_quads]
   | serializeTurtle nsOf => simp only [State.run, State.serializeTurtle, visible_cc]
   | serializeLongTurtle nsOf c f =>
-    simp only [State.run, State.serializeLongTurtle, visible_cc, contextsCall_isDataset]
+    simp only [State.run, State.serializeLongTurtle, visible_cc, contextsCall_isDataset, contextsCall_quads]
     split <;> rfl
   | serializeXml nsOf => simp only [State.run, State.serializeXml, visible_cc]
   | serializePrettyXml nsOf ty d => simp only [State.run, State.serializePrettyXml, visible_cc]
@@ -608,7 +608,7 @@ theorem run_out_setNs {s : State} (h : WF s) (k : List Nat) (r : ReadOp) :
   | serializeTurtle nsOf => rfl
   | serializeLongTurtle nsOf c f =>
     have hd : (s.setNs k).isDataset = s.isDataset := rfl
-    simp only [State.run, State.serializeLongTurtle, hd, hv]
+    simp only [State.run, State.serializeLongTurtle, hd, hv, hq]
     split <;> rfl
   | serializeXml nsOf => rfl
   | serializePrettyXml nsOf ty d => rfl
@@ -682,7 +682,7 @@ theorem runAll_wf : ∀ (rs : List ReadOp) {s : State}, WF s → WF (s.runAll rs
 def ReadOp.mayBindNs (s : State) (n : Nat) : ReadOp → Prop
   | .serializeTurtle nsOf => ∃ t ∈ s.visible, nsOf t.2.1 = some n
   | .serializeLongTurtle nsOf canon canonf =>
-    (canon && s.isDataset) = false ∧
+    (canon && s.isDataset && !s.quads.isEmpty) = false ∧
     ∃ t ∈ (if canon then unionInto [] (canonf s.visible) else s.visible), nsOf t.2.1 = some n
   | .serializeXml nsOf => ∃ t ∈ s.visible, nsOf t.2.1 = some n
   | .serializePrettyXml nsOf ty _ =>
